@@ -69,6 +69,13 @@ Extensions of the subset (groups Fit, Net, Analysis, Queue, Tariff — all gener
                    (one index) reading of numpy broadcast expressions in `_NpTr`.
   Anything that does not fit raises `Unsupported`: the definition is not emitted and its tie stops compiling.
 
+Second part of this file (kind 'state', class `STr`, groups QueueOps / EvseOps / NetOps / SimEvent and the fixed
+`Gen/CodePrelude.lean`): small STATEFUL methods — the event queue, `BaseEVSE.plugin/unplug/set_pilot`,
+`ChargingNetwork.plugin/unplug/get_ev/active_evs`, `Simulator._process_event` — as functions of an explicit `self`
+record that return the updated record, with `raise` as `Except PyErr`, partial operations and mutating calls hoisted in
+evaluation order, `for` / `while` as auxiliary recursions.  Its subset and its limits are described where it starts
+("T1c, second part").
+
 Python semantics that are NOT translated (recorded in the trusted base): `ZeroDivisionError` of float
 division (the tie theorems are stated for the inputs on which the hand model does not report
 `zeroDivision`), NaN/inf corner cases of comparisons, exceptions' messages.
